@@ -1,5 +1,5 @@
 From Coq Require Import Extraction ExtrOcamlBasic.
-From PV Require Import Base.IO ListM.ListMDefs.
+From PV Require Import Base.IO ListM.ListMDefs ListM.ListMConcDefs.
 Extraction Language OCaml.
 (* coqc runs from coq/ (coq_makefile), so the path is relative to it *)
-Extraction "extracted/listm.ml" io_witness init getl ring step run.
+Extraction "extracted/listm.ml" io_witness init getl ring step run cinit cstep crun.
